@@ -107,6 +107,7 @@ struct lifetime_monitor : public expectation
       }
       *link = older_monitor;
     }
+    sequences->retire();
   }
 
   lifetime_monitor& operator=(lifetime_monitor const&) = delete;
